@@ -65,12 +65,64 @@ pub fn run(id: &str, ctx: &Ctx) -> i32 {
     }
 }
 
+/// length (in u32s) of the choice streams a property's in-process stage draws
+pub fn stream_len(id: &str) -> usize {
+    match id {
+        "C13" | "C20" => 700,
+        "C17" | "C18" => 800,
+        _ => 400,
+    }
+}
+
+/// One case of an in-process property as a pure function of a choice stream: the first value
+/// selects the generator profile, the rest is the stream the proptest stage would have drawn.
+/// Used by the coverage-guided stage (`fuzzstage`), which lets libFuzzer mutate the stream.
+pub fn stream_case(id: &str, stream: &[u32], ev: &mut crate::ev::Evidence) -> Result<(), crate::ev::Violation> {
+    let sel = stream.first().copied().unwrap_or(0);
+    let rest = if stream.is_empty() { stream } else { &stream[1..] };
+    let pick = |n: usize| ((sel as u64 * n as u64) >> 32) as usize;
+    ev.eval();
+    match id {
+        "C09" => {
+            let ps = c09::profiles();
+            let p = &ps[pick(ps.len())];
+            c09::check_grammar(&crate::ggen::build(p, rest), ev, p.name).map(|_| ())
+        }
+        "C10" => {
+            let ps = c10::profiles();
+            let p = &ps[pick(ps.len())];
+            c10::check_grammar(&crate::ggen::build(p, rest), ev, p.name).map(|_| ())
+        }
+        "C14" => {
+            let ps = c14::profiles();
+            let p = &ps[pick(ps.len())];
+            c14::check_grammar(&crate::ggen::build(p, rest), ev, p.name).map(|_| ())
+        }
+        "C13" => {
+            let ps = c13::profiles();
+            c13::check_case(rest, &ps[pick(ps.len())], ev)
+        }
+        "C17" => {
+            let ps = c17::profiles();
+            let p = &ps[pick(ps.len())];
+            c17::check_valid(&c17::valid_text(rest, p), ev, p.name).map(|_| ())
+        }
+        "C18" => {
+            let ps = c17::profiles();
+            let p = &ps[pick(ps.len())];
+            c17::check_idem(&c17::valid_text(rest, p), ev, p.name)
+        }
+        "C20" => c20::run_inprocess(&c20::gen_history(rest)).map(|_| ()),
+        _ => Ok(()),
+    }
+}
+
 /// The repository's own accepted grammars, imported through the front end's typed view.
 pub fn real_grammars() -> Vec<(crate::gm::Grammar, &'static str)> {
     let mut out = vec![];
-    let mut paths: Vec<std::path::PathBuf> = vec![std::path::PathBuf::from("/repo/src/frontend/lelwel.llw")];
-    for dir in ["/repo/examples", "/repo/tests/frontend"] {
-        let mut stack = vec![std::path::PathBuf::from(dir)];
+    let mut paths: Vec<std::path::PathBuf> = vec![crate::ev::repo().join("src/frontend/lelwel.llw")];
+    for dir in ["examples", "tests/frontend"] {
+        let mut stack = vec![crate::ev::repo().join(dir)];
         while let Some(d) = stack.pop() {
             if let Ok(rd) = std::fs::read_dir(&d) {
                 for e in rd.flatten() {
